@@ -26,6 +26,9 @@ type c14Doc struct {
 	Class  string        `json:"class"` // invalid class or "valid"
 	Policy *model.Policy `json:"policy,omitempty"`
 	Raw    string        `json:"raw,omitempty"` // literal document (invalid JSON etc.)
+	// Either: the document may be stored (then it is enforced as written) or refused (then the previous
+	// policy stays)
+	Either bool `json:"either,omitempty"`
 }
 
 type c14Prog struct {
@@ -227,8 +230,20 @@ func (c14) Gen(seed uint64, run int, tier string) *core.Case {
 	p := c14Prog{Restart: r.IntN(5) == 0}
 	nd := 1 + r.IntN(3)
 	for i := 0; i < nd; i++ {
-		if r.IntN(3) == 0 {
+		if x := r.IntN(6); x < 2 {
 			p.Docs = append(p.Docs, c14GenInvalid(r, "alpha", users))
+		} else if x == 2 {
+			// a statement without "Principal" or without "Action": the property lists no such class among the
+			// invalid documents, so the gateway may refuse it (previous policy stays) or store it; a stored one
+			// names nobody / nothing in that statement, which therefore matches no request
+			pol := c14GenValid(r, "alpha", users)
+			st := &pol.Statements[r.IntN(len(pol.Statements))]
+			if r.IntN(2) == 0 {
+				st.OmitP = true
+			} else {
+				st.OmitA = true
+			}
+			p.Docs = append(p.Docs, c14Doc{Either: true, Class: "omitted-field", Policy: pol})
 		} else {
 			p.Docs = append(p.Docs, c14Doc{Valid: true, Class: "valid", Policy: c14GenValid(r, "alpha", users)})
 		}
@@ -515,7 +530,14 @@ func (c14) Exec(c *core.Case) (out *core.Outcome) {
 			shape = fmt.Sprintf("n=%d/%s/%s", len(d.Policy.Statements), patClass(rs), actClass(as))
 		}
 		o.AddClass("doc|%s|%s|%s|perm=%v", d.Class, shape, statusClass(res.Resp.Status), c.Sched.PermMaps)
-		if d.Valid {
+		if d.Either {
+			if res.Resp.OK() {
+				o.Probe("omitted_field_document_stored")
+			} else {
+				o.Probe("omitted_field_document_refused")
+			}
+		}
+		if d.Valid || (d.Either && res.Resp.OK()) {
 			if !res.Resp.OK() {
 				o.Violate("policy-validation", "C14/valid-refused", "document %d: a valid policy was refused with %d %s: %s", di, res.Resp.Status, res.Resp.ErrCode(), body)
 				continue
@@ -533,7 +555,7 @@ func (c14) Exec(c *core.Case) (out *core.Outcome) {
 			}
 			probeAll(di, "after-valid-put")
 		} else {
-			if res.Resp.OK() {
+			if res.Resp.OK() && !d.Either {
 				o.Violate("policy-validation", "C14/invalid-accepted/"+d.Class, "document %d: an invalid policy (%s) was accepted with %d (map-order permutation %v): %s", di, d.Class, res.Resp.Status, c.Sched.PermMaps, abbreviate(string(body), 400))
 				continue
 			}
